@@ -221,6 +221,38 @@ pub fn main(tier: Tier) -> ! {
     let c = run_laws(&run, "array+key", &key_laws, &arrs);
     run.family("arrays x key filters", json!({"arrays": arrs.len(), "laws": KEY_LAWS.len(), "key_filters": KEY_FILTERS, "cases": c.evaluations}));
     run.add(c);
+    // long arrays with many ties (sorting strategies change with the length of the input)
+    let longs: Vec<RVal> = {
+        let mut v = vec![];
+        let maxn = if run.quick() { 72 } else { 200 };
+        for n in 0..=maxn {
+            for m in 1..=5i64 {
+                for variant in 0..3 {
+                    let arr: Vec<RVal> = (0..n as i64)
+                        .map(|i| {
+                            let k = match variant {
+                                0 => i % m,
+                                1 => (n as i64 - i) % m,
+                                _ => (i * 7 + 3) % m,
+                            };
+                            RVal::Obj(vec![(rv::s("k"), rv::int(k)), (rv::s("i"), rv::int(i))])
+                        })
+                        .collect();
+                    v.push(RVal::Arr(arr));
+                }
+            }
+        }
+        v
+    };
+    let long_laws: Vec<(String, String)> = KEY_LAWS.iter().map(|(n, l)| (format!("{n} [f = .k]"), l.replace("KF", ".k"))).chain([
+        ("group_by members keep input order".to_string(), "all(group_by(.k)[]; . as $g | all(range(1; length); $g[. - 1].i < $g[.].i))".to_string()),
+        ("unique_by keeps the first occurrence".to_string(), ". as $a | all(unique_by(.k)[]; . as $u | $u.i == ([$a[] | select(.k == $u.k) | .i] | min))".to_string()),
+        ("sort/min/max on long arrays".to_string(), "(sort | sorted) and (sort | length) == length and (if length > 0 then min == sort[0] and max == sort[-1] else true end) and (map(.k) | unique) == (map(.k) | sort | runs(.) | map(.[0]))".to_string()),
+    ]).collect();
+    let c = run_laws(&run, "long-array", &long_laws, &longs);
+    run.family("long arrays with ties", json!({"arrays": longs.len(), "laws": long_laws.len(), "cases": c.evaluations}));
+    run.add(c);
+    run.bound_done(format!("all arrays [{{k: f(i) mod m, i}}] for every length n <= {}, m in 1..5, three key patterns", if run.quick() { 72 } else { 200 }));
     let array_laws: Vec<(String, String)> = own(ARRAY_LAWS).into_iter().map(|(n, l)| (n, l.replace("$a0", "$__a"))).map(|(n, l)| if l.contains("$__a") { (n, format!(". as $__a | {l}")) } else { (n, l) }).collect();
     let c = run_laws(&run, "array", &array_laws, &arrs);
     run.family("arrays", json!({"arrays": arrs.len(), "laws": ARRAY_LAWS.len(), "cases": c.evaluations}));
